@@ -172,6 +172,51 @@ def mutation_sweep(ctx):
     ctx.corr["sweep:no_mutation_public_methods"] = stats
 
 
+def helper_presentation_sweep(ctx):
+    """pure-Python helpers (the compiled twins reject non-float64 buffers) must return the same values for an integer array
+    as for the float64 array holding the same numbers: every degree on both sides of the table / generic dispatch"""
+    rng = ctx.rng
+    jobs, meta = [], []
+    def both(op, nodes_int, rest):
+        ints = [[int(x) for x in r] for r in nodes_int]
+        hexes = [[float(x).hex() for x in r] for r in nodes_int]
+        for pres in ({"a": hexes}, {"ai": ints}):
+            jobs.append({"op": op, "args": [pres] + rest})
+            meta.append((op, ints))
+    for rep in range(1 if ctx.quick() else 5):
+        for n in range(1, 9):
+            c = [[rng.randint(-9, 9) for _ in range(n + 1)] for _ in range(2)]
+            both("hazmat.subdivide_nodes", c, [])
+            both("hazmat.specialize_curve", c, [enc_f(F(1, 4)), enc_f(F(3, 4))])
+            both("hazmat.elevate_nodes", c, [])
+            both("hazmat.evaluate_multi", c, [enc_vec([F(1, 4), F(1, 2)])])
+            both("hazmat.evaluate_hodograph", c, [])      # (s, nodes) order handled below
+        for d in range(1, 8):
+            num = (d + 1) * (d + 2) // 2
+            t = [[rng.randint(-9, 9) for _ in range(num)] for _ in range(2)]
+            both("hazmat.tri_subdivide_nodes", t, [d])
+            both("hazmat.tri_specialize", t, [d, enc_vec([F(1), F(0), F(0)]), enc_vec([F(1, 2), F(1, 2), F(0)]), enc_vec([F(1, 2), F(0), F(1, 2)])])
+            both("hazmat.tri_evaluate_barycentric", t, [d, enc_f(F(1, 4)), enc_f(F(1, 4)), enc_f(F(1, 2))])
+            both("hazmat.tri_jacobian_both", t, [d, 2])
+            both("hazmat.tri_compute_edge_nodes", t, [d])
+    # evaluate_hodograph takes (s, nodes)
+    for j in jobs:
+        if j["op"] == "hazmat.evaluate_hodograph":
+            j["args"] = [enc_f(F(3, 8)), j["args"][0]]
+    res = run_impl_parallel("pure", jobs)
+    stats = {"cases": len(jobs) // 2, "failures": 0, "ops": sorted({m[0] for m in meta}),
+             "kind": "support sweep (pure configuration): integer-array presentation of the control net vs float64 presentation, hazmat helpers"}
+    for i in range(0, len(res), 2):
+        a, b = res[i], res[i + 1]
+        if json.dumps(a.get("ok")) != json.dumps(b.get("ok")) or ("exc" in a) != ("exc" in b):
+            stats["failures"] += 1
+            if stats["failures"] <= 3:
+                ctx.violations.append({"kind": "presentation-dependence", "config": "pure", "op": meta[i][0], "case": {"integer_nodes": meta[i][1]},
+                                       "implementation_returned": {"float64": a, "int64": b},
+                                       "verdict": "%s returns different values for an integer array than for the float64 array with the same numbers" % meta[i][0]})
+    ctx.corr["sweep:helper_integer_presentation"] = stats
+
+
 def run(ctx):
     prove(ctx, DEPS)
     rng = ctx.rng
@@ -267,6 +312,7 @@ def run(ctx):
 
     numerical_state_sweep(ctx)
     mutation_sweep(ctx)
+    helper_presentation_sweep(ctx)
 
     # ---- presentation independence and non-mutation through the public constructors (both configurations)
     pres_stats = {"cases": 0, "failures": 0, "kind": "support sweep: list / int array / C-order / F-order presentations; inputs unchanged"}
